@@ -1,4 +1,4 @@
-CONSTANTS Deep = FALSE
+CONSTANTS Deep = TRUE
 SPECIFICATION Spec
 INVARIANTS FormsOK
 CHECK_DEADLOCK FALSE
